@@ -184,7 +184,7 @@ class Check:
         return path, s
 
     def validate(self, label, module, trace, aspect, what, invariants=('Result',), spec='TrSpec', timeout=1800,
-                 heap='8g'):
+                 heap='8g', classify=None):
         """Validate a recorded trace against a trace specification with TLC.  The trace
         spec prints one `trace_result` record: events consumed and the indexes (1-based
         lines) of the events it could not explain."""
@@ -206,6 +206,14 @@ class Check:
         if res['events'] != len(lines):
             raise ToolError(f'trace length mismatch: TLC read {res["events"]} events, file has {len(lines)}')
         bad = res.get('bad', [])
+        if classify is not None:
+            # the trace serves several properties: keep the rejected events that belong to this one
+            kept = {}
+            for l in bad:
+                a = classify(json.loads(lines[l - 1]))
+                if a is not None:
+                    kept[l] = a
+            bad = sorted(kept)
         summ = {'label': label, 'events': res['events'], 'validated': res['events'] - len(bad), 'rejected': len(bad),
                 'wall_s': r['wall_s'], 'mismatch_counts': ({aspect: len(bad)} if bad else {}),
                 'distinct': res.get('distinct', res['events'])}
@@ -220,7 +228,7 @@ class Check:
             with open(prefix_path, 'w') as f:
                 f.write('\n'.join(lines[start:l]) + '\n')
             ev = json.loads(lines[l - 1])
-            self.mismatches.append((aspect, {'what': what, 'event_index': l, 'event': ev, 'trace_module': module,
+            self.mismatches.append((aspect if classify is None else kept[l], {'what': what, 'event_index': l, 'event': ev, 'trace_module': module,
                                              'trace_prefix': prefix_path}))
         if not self.samples or len(self.samples) < 6:
             self.samples.append({'recorded_event': json.loads(lines[min(len(lines) - 1, 1)])})
@@ -441,7 +449,7 @@ def c06(ctx):
         trace, s = ctx.record('record-obj', f'objtrace{i}.ndjson', ['--n', n, '--keys', 40, '--resets', 3], seed_offset=i * 7919)
         ctx.validate(f'objtrace{i}', 'TraceObject', trace, 'C06.trace',
                      'recorded object operation is not explained by the list model / index of JsonObject',
-                     invariants=('Consistent', 'Result'))
+                     invariants=('Consistent', 'Result'), classify=lambda ev: None if ev.get('ev') == 'obs' else 'C06.trace')
     ctx.extra['rule'] = ('S->I: one case = one (reachable abstract object state, operation) transition of MC_Object replayed from an '
                          'access history, comparing entries, result, hooked index buckets and every key query; I->S: one case = one '
                          'operation of a long random history over 40 keys (several rehash cycles) validated by TraceObject')
@@ -450,7 +458,15 @@ def c06(ctx):
 def c14(ctx):
     r = object_graph(ctx)
     ctx.replay([r['out']], ['C14.'])
-    domains, size = (3, 36) if ctx.quick else (10, 90)
+    # long random histories with interleaved observations: after hashing / comparing the object at arbitrary points of its
+    # history it must still be ==, Equal and hash-identical to an object rebuilt from its entries
+    for i in range(1 if ctx.quick else 6):
+        trace, s = ctx.record('record-obj', f'objobs{i}.ndjson', ['--n', 500 if ctx.quick else 3000, '--keys', 12, '--resets', 5, '--observe', 2],
+                              seed_offset=i * 104729)
+        ctx.validate(f'objobs{i}', 'TraceObject', trace, 'C14.trace',
+                     'an object observed (==, cmp, hash) in the middle of its history differs from an object rebuilt from the same entries',
+                     invariants=('Consistent', 'Result'), classify=lambda ev: 'C14.trace' if ev.get('ev') == 'obs' else None)
+    domains, size = (4, 36) if ctx.quick else (11, 90)
     trace, s = ctx.record('record-order', 'order.ndjson', ['--domains', domains, '--size', size])
     v = ctx.validate('order', 'TraceOrder', trace, 'C14.laws',
                      'recorded ==/cmp/partial_cmp/hash matrices violate the laws (structural equality, total order consistent with equality, hash respects equality)')
@@ -555,8 +571,21 @@ def c08(ctx):
            'compact printing of a one-character string / key differs from the RFC 8785 escaping (run-compressed exhaustive sweep)')
 
 
+def nav_values(ctx):
+    """every small value (by shape, not by text length) with its navigation expectations, replayed as `parse` vectors"""
+    outs = []
+    insts = [('deep', {'Keys': '{<<97>>}', 'Leaves': '{VNum(<<49>>)}'}, {'MaxDepth': 3, 'MaxWidth': 2}),
+             ('wide', {'Keys': '{<<97>>, <<98>>}', 'Leaves': '{VNum(<<49>>)}'}, {'MaxDepth': 2, 'MaxWidth': 3})]
+    if not ctx.quick:
+        insts.append(('mixed', {'Keys': '{<<97>>, <<233>>}', 'Leaves': '{VNull, VStr(<<233, 128512>>)}'}, {'MaxDepth': 3, 'MaxWidth': 2}))
+    for name, consts, plain in insts:
+        r = ctx.mc(f'navvalues_{name}', 'MC_NavValues', consts, plain, ['Dump', 'ParseOfPrint'], spec='VSpec')
+        outs.append(r['out'])
+    return outs
+
+
 def c11(ctx):
-    files = parser_trees(ctx, ['struct', 'tokens', 'nest', 'numobj', 'keypad', 'surrkey'])
+    files = parser_trees(ctx, ['struct', 'tokens', 'nest', 'numobj', 'keypad', 'surrkey']) + nav_values(ctx)
     if ctx.quick:
         consts = {'Keys': '{<<97>>}', 'Leaves': '{VNull, VNum(<<49>>)}'}
     else:
